@@ -1,0 +1,32 @@
+//go:build verif
+// +build verif
+
+package portmapping
+
+import (
+	utiliptables "tkestack.io/galaxy/pkg/utils/iptables"
+)
+
+// This file is only compiled with the `verif` build tag. It adds no behaviour.
+
+// NewVerif creates a PortMappingHandler over the given iptables handle.
+func NewVerif(ipt utiliptables.Interface, natInterfaceName string) *PortMappingHandler {
+	return &PortMappingHandler{
+		Interface:        ipt,
+		podPortMap:       make(map[string]map[hostport]closeable),
+		natInterfaceName: natInterfaceName,
+	}
+}
+
+// VerifOpenPorts lists the host ports currently held open, as "pod proto:port".
+func (h *PortMappingHandler) VerifOpenPorts() []string {
+	h.Lock()
+	defer h.Unlock()
+	var out []string
+	for pod, m := range h.podPortMap {
+		for hp := range m {
+			out = append(out, pod+" "+hp.String())
+		}
+	}
+	return out
+}
